@@ -489,9 +489,21 @@ def _rule_sweep_closed(prog, chk, R, gc, markObject, objfields, entry):
     def is_count(c, ovid, neg=False):
         c = SX.strip(c)
         if neg:
-            if not (SX.is_node(c) and c.get('k') == 'un' and c['op'] == '!'):
-                return False
-            c = SX.strip(c['e'])
+            cp0 = SX.cmp_parts(c) if SX.is_node(c) and c.get('k') == 'bin' else None
+            if cp0 and cp0[0] == '==' and SX.is_node(SX.strip(cp0[2])) and SX.strip(cp0[2]).get('v') == 0:
+                c = SX.strip(cp0[1])
+                neg = False
+            else:
+                if not (SX.is_node(c) and c.get('k') == 'un' and c['op'] == '!'):
+                    return False
+                c = SX.strip(c['e'])
+                neg = False
+        cp_ = SX.cmp_parts(c) if SX.is_node(c) and c.get('k') == 'bin' else None
+        if cp_ and SX.is_node(SX.strip(cp_[2])) and SX.strip(cp_[2]).get('k') == 'int' and SX.strip(cp_[2]).get('v') == 0:
+            if (cp_[0] in ('!=', '>') and not neg) or (cp_[0] == '==' and neg):
+                c = SX.strip(cp_[1])
+                while SX.is_node(c) and c.get('k') == 'cast':
+                    c = SX.strip(c['e'])
         if not (SX.is_node(c) and c.get('k') == 'mcall' and SX.short(c['callee']) in ('count', 'contains')):
             return False
         o = SX.strip(c['obj'])
@@ -511,6 +523,34 @@ def _rule_sweep_closed(prog, chk, R, gc, markObject, objfields, entry):
 
     idx = {id(s): i for i, s in enumerate(top)}
     pos_sel = idx[id(loop)]
+    stop = _stop_flag(entry)
+
+    def stop_polarity(c):
+        """True: the condition holds exactly when the run is over (stop flag set); False: exactly while the program runs (a conjunct
+        "there is something kept" aside); None: something else"""
+        cj_ = [c_ for c_ in _conj(c) if not (SX.is_node(c_) and c_.get('k') == 'un' and c_['op'] == '!' and SX.is_node(SX.strip(c_['e'])) and SX.strip(c_['e']).get('k') == 'mcall'
+                                              and SX.short(SX.strip(c_['e']).get('callee', '')) == 'empty' and SX.strip(SX.strip(c_['e']).get('obj')).get('id') == K['id'])]
+        if len(cj_) != 1:
+            return None
+        c0, pol = SX.strip(cj_[0]), True
+        while SX.is_node(c0) and c0.get('k') == 'un' and c0.get('op') == '!':
+            c0, pol = SX.strip(c0['e']), not pol
+        if SX.is_node(c0) and any(x.get('k') == 'member' and x.get('name') == stop for x in SX.walk(c0)) and not any(x.get('k') == 'ref' and not x.get('global') for x in SX.walk(c0)):
+            return pol
+        return None
+    # the statements before the selection, by phase: 'both' (unconditional), 'mid' (only while the program runs), 'end' (only once the run is over)
+    units = []
+    for i, s in enumerate(top):
+        if i >= pos_sel:
+            break
+        pol_ = stop_polarity(s['c']) if s.get('k') == 'if' else None
+        if pol_ is None:
+            units.append(([s], 'both', i))
+        else:
+            units.append((body_list(s), 'end' if pol_ else 'mid', i))
+            if s.get('e') is not None:
+                eb = s['e']['body'] if SX.is_node(s['e']) and s['e'].get('k') == 'block' else [s['e']]
+                units.append((eb, 'mid' if pol_ else 'end', i))
     # (A) seed: every candidate whose destruction is observable — reachable at the moment or not: a garbage cycle may share such an
     # object with a live variable, and breaking the cycle early or late then decides when (or whether) its destructor runs
     dest = R.ev_method('destroyObject')
@@ -525,14 +565,21 @@ def _rule_sweep_closed(prog, chk, R, gc, markObject, objfields, entry):
     if len(dmembers) != 1:
         raise AnalysisBroken('the class member destroyObject consults for "has a destructor body" was not resolved: %s' % sorted(dmembers))
     D = next(iter(dmembers))
-    seed = None
+    seed = None             # (top index, position) of the seeding loop of the running phase
+    seed_end = None         # … of the end-of-run phase
     seed_why = 'no seeding loop found'
-    for i, s in enumerate(top):
-        if is_cand_loop(s) and i < pos_sel:
+    for stmts_, ph_, i in units:
+      for j_, s in enumerate(stmts_):
+        if is_cand_loop(s):
             b = body_list(s)
             v = s['var']['id']
             if len(b) == 1 and b[0].get('k') == 'if' and not b[0].get('e') and inserts(body_list(b[0]), v):
                 cj = _conj(b[0]['c'])
+                rest0 = [c for c in cj if not (is_not_marked(c, v) or is_cls_nonnull(c, v))]
+                if ph_ in ('end', 'both') and len(rest0) == 1 and cls_flag(rest0[0], v) == F:
+                    seed_end = (i, j_)       # exactly (or more than) what the sweep excludes: unreachable objects with the flag
+                if ph_ == 'end':
+                    continue
                 if any(is_not_marked(c, v) for c in cj):
                     seed_why = 'only unreachable objects are seeded: a reachable object with observable destruction that a garbage cycle also refers to dies when the cycle is broken or when ' \
                                'its last variable goes, whichever the collector\'s timing makes later'
@@ -570,51 +617,45 @@ def _rule_sweep_closed(prog, chk, R, gc, markObject, objfields, entry):
                                 if ms and not any(y.get('k') == 'un' and y.get('op') == '!' for y in SX.walk(dj)):
                                     atoms.add(ms[0])
                 if walks and last_false and {F, D} <= atoms:
-                    seed = i
+                    seed = (i, j_)
+                    if ph_ == 'both':
+                        seed_end = (i, j_)      # the chain closure covers what the sweep excludes
                 else:
                     seed_why = 'the closure must walk the base chain and answer true for %s and for %s (found: chain walk %s, atoms %s)' % (F, D, bool(walks), sorted(atoms))
     chk.ob('R11.5', gc, K.get('ln', gc.ln), seed is not None,
            why + ': every candidate whose class chain has %s or a destructor body (%s) is put into %s by a full loop over the candidates before the selection (%s)' % (
                F, D, K['name'], 'ok' if seed is not None else seed_why), key='sweep-closed:seed')
+    chk.ob('R11.5', gc, K.get('ln', gc.ln), seed_end is not None,
+           why + ': in the end-of-run collection every unreachable object with %s — what the sweep leaves alone — is put into %s, so that what it refers to stays intact' % (F, K['name']),
+           key='sweep-closed:seed-end')
     # (B) marking of the kept objects
     mark = None
-    for i, s in enumerate(top):
-        if is_cand_loop(s) and i < pos_sel:
+    for stmts_, ph_, i in units:
+      for j_, s in enumerate(stmts_):
+        if ph_ == 'both' and is_cand_loop(s):
             b = body_list(s)
             v = s['var']['id']
             if len(b) == 1 and b[0].get('k') == 'if' and not b[0].get('e') and is_count(b[0]['c'], v):
                 t = body_list(b[0])
                 e = SX.strip(t[0].get('e')) if len(t) == 1 and t[0].get('k') == 'expr' else None
                 if SX.is_node(e) and e.get('k') == 'mcall' and e.get('callee') == markObject.name and rooted_at(SX.real_args(e)[0], v):
-                    mark = i
-    chk.ob('R11.5', gc, K.get('ln', gc.ln), mark is not None and (seed is None or mark > seed),
+                    mark = (i, j_)
+    chk.ob('R11.5', gc, K.get('ln', gc.ln), mark is not None and (seed is None or mark > seed) and (seed_end is None or mark > seed_end),
            why + ': every member of %s is marked — and with it everything it reaches — by an unconditional full loop before the selection' % K['name'],
            key='sweep-closed:mark')
     # (C) the fixpoint
-    stop = _stop_flag(entry)
     fix = None
     detail = 'no fixpoint loop found'
-    for i, s in enumerate(top):
-        if i >= pos_sel:
-            break
-        inner = [s]
-        guarded = False
-        if s.get('k') == 'if' and not s.get('e'):
-            cj = [c_ for c_ in _conj(s['c']) if not (SX.is_node(c_) and c_.get('k') == 'un' and c_['op'] == '!' and SX.is_node(SX.strip(c_['e'])) and SX.strip(c_['e']).get('k') == 'mcall'
-                                                        and SX.short(SX.strip(c_['e']).get('callee', '')) == 'empty' and SX.strip(SX.strip(c_['e']).get('obj')).get('id') == K['id'])]
-            if len(cj) == 1 and SX.is_node(cj[0]) and cj[0].get('k') == 'un' and cj[0]['op'] == '!' and \
-                    any(x.get('k') == 'member' and x.get('name') == stop for x in SX.walk(cj[0]['e'])) and \
-                    not any(x.get('k') == 'ref' and not x.get('global') for x in SX.walk(cj[0]['e'])):
-                inner = body_list(s)
-                guarded = True
-            elif not cj:
-                inner = body_list(s)      # only "there is something to close over": as good as unconditional
-            else:
-                if any(x.get('k') == 'while' for x in SX.walk(s, into_lambdas=False)) and any(x.get('k') == 'ref' and x.get('id') == K['id'] for x in SX.walk(s)):
-                    detail = 'the closure is skipped under `%s`, which is not "the run is over"' % SX.show(s['c'])[:50]
-                continue
+    for inner, ph_, i in units:
+        if ph_ == 'end':
+            continue
+        guarded = ph_ == 'mid'
+        if ph_ == 'both' and len(inner) == 1 and inner[0].get('k') == 'if' and any(x.get('k') in ('while', 'do') for x in SX.walk(inner[0], into_lambdas=False)) and \
+                any(x.get('k') == 'ref' and x.get('id') == K['id'] for x in SX.walk(inner[0])):
+            detail = 'the closure is skipped under `%s`, which is not "the run is over"' % SX.show(inner[0]['c'])[:50]
+            continue
         for j, w in enumerate(inner):
-            if w.get('k') != 'while':
+            if w.get('k') not in ('while', 'do'):
                 continue
             g = SX.strip(w['c'])
             if not (SX.is_node(g) and g.get('k') == 'ref'):
@@ -625,13 +666,15 @@ def _rule_sweep_closed(prog, chk, R, gc, markObject, objfields, entry):
             if not gdecl or len(wb) != 2:
                 detail = 'fixpoint loop not of the form `while (g) { g = false; for (…) … }`'
                 continue
-            init = SX.strip(gdecl[0].get('init'))
+            init = SX.strip(gdecl[0].get('init')) if gdecl[0].get('init') is not None else None
             init_ok = SX.is_node(init) and ((init.get('k') == 'bool' and init.get('v') is True) or
                                             (init.get('k') == 'un' and init['op'] == '!' and SX.is_node(SX.strip(init['e'])) and SX.strip(init['e']).get('k') == 'mcall'
                                              and SX.short(SX.strip(init['e'])['callee']) == 'empty' and SX.strip(SX.strip(init['e'])['obj']).get('id') == K['id']))
             w0 = SX.write_target(wb[0].get('e')) if wb[0].get('k') == 'expr' else None
             clr = bool(w0) and SX.strip(w0[0]).get('id') == gid and w0[2] == '=' and SX.strip(w0[1]).get('v') is False
             lp = wb[1]
+            if w.get('k') == 'do':
+                init_ok = True      # the body runs before the flag is first tested
             if not (init_ok and clr and is_cand_loop(lp)):
                 detail = 'fixpoint loop: flag initialised to %s, cleared first: %s, inner loop over all candidates: %s' % (SX.show(init)[:30], clr, is_cand_loop(lp))
                 continue
@@ -659,7 +702,7 @@ def _rule_sweep_closed(prog, chk, R, gc, markObject, objfields, entry):
             if lam is None or not rooted_at(pc['args'][1], v):
                 detail = 'the "refers to a kept object" test is not a local closure applied to the candidate'
                 continue
-            fix = (i, guarded, lam)
+            fix = ((i, j), guarded, lam)
     ok_fix = fix is not None and (seed is None or fix[0] > seed) and (mark is None or fix[0] < mark)
     chk.extra['sweep_closure'] = {'found': fix is not None, 'skipped_when_run_is_over': bool(fix and fix[1]), 'kept_set': K['name'], 'line': K.get('ln')}
     chk.ob('R11.5', gc, K.get('ln', gc.ln), ok_fix,
